@@ -191,3 +191,126 @@ func replayServer(o *Out, lines []string) {
 	}
 	flush()
 }
+
+// ---- serverconc: PushBlock concurrent with subscribe (C20, "every interleaving of PushBlock with concurrent
+// subscribe"). The outcome the property allows is a single one per subscriber: what it receives is a gap-free run
+// of the pushed sequence ending with the last block pushed. Which block the run starts with depends on the schedule.
+
+func init() {
+	suites["serverconc"] = suiteServerConc
+	replaySuites["serverconc"] = func(o *Out, lines []string) {
+		// the schedule is not replayable: a replay re-runs the same configuration a few times
+		for _, l := range lines {
+			ws := strings.Fields(l)
+			if len(ws) >= 7 && ws[0] == "case" && ws[2] == "serverconc" {
+				var k, pre, conc, size, burst int
+				fmt.Sscan(ws[3], &k)
+				fmt.Sscan(ws[4], &pre)
+				fmt.Sscan(ws[5], &conc)
+				fmt.Sscan(ws[6], &size)
+				if len(ws) > 7 {
+					fmt.Sscan(ws[7], &burst)
+				}
+				for i := 0; i < 20; i++ {
+					runServerConc(o, k, pre, conc, size, burst, int64(i))
+				}
+			}
+		}
+	}
+}
+
+func runServerConc(o *Out, k, pre, conc, size, burst int, spin int64) {
+	o.Case("serverconc", k, pre, conc, size, burst)
+	s := blockstream.NewUnmanagedServer(blockstream.ServerOptionWithBuffer(size))
+	ts := timestamppb.New(time.Unix(1600000000, 0))
+	push := func(i int) {
+		s.PushBlock(&pbbstream.Block{Id: fmt.Sprintf("b%d", i), Number: uint64(i + 1), ParentId: "p", Timestamp: ts})
+	}
+	for i := 0; i < pre; i++ {
+		push(i)
+	}
+	total := pre + conc + 3
+	subs := make([]*blockstream.VerifSub, k)
+	start := make(chan struct{})
+	done := make(chan struct{}, k+1)
+	for j := 0; j < k; j++ {
+		go func(j int) {
+			<-start
+			for y := int64(0); y < (spin*7+int64(j)*13)%40; y++ {
+				time.Sleep(time.Microsecond)
+			}
+			subs[j] = s.VerifSubscribe(burst)
+			done <- struct{}{}
+		}(j)
+	}
+	go func() {
+		<-start
+		for i := pre; i < pre+conc; i++ {
+			push(i)
+			if i%4 == 0 {
+				time.Sleep(time.Microsecond)
+			}
+		}
+		done <- struct{}{}
+	}()
+	close(start)
+	for i := 0; i < k+1; i++ {
+		<-done
+	}
+	for i := pre + conc; i < total; i++ {
+		push(i)
+	}
+	last := fmt.Sprintf("b%d", total-1)
+	for j := 0; j < k; j++ {
+		o.Op("sub %d", j)
+		v := subs[j]
+		if v == nil {
+			o.Impl("sub %d nil", j)
+			continue
+		}
+		var got []int
+		closed := false
+		for {
+			b, open, empty := v.TryRecv()
+			if empty {
+				break
+			}
+			if !open {
+				closed = true
+				break
+			}
+			var n int
+			fmt.Sscanf(b.Id, "b%d", &n)
+			got = append(got, n)
+		}
+		gapAt := ""
+		for i := 1; i < len(got); i++ {
+			if got[i] != got[i-1]+1 {
+				gapAt = fmt.Sprintf("b%d->b%d", got[i-1], got[i])
+				break
+			}
+		}
+		switch {
+		case closed:
+			o.Impl("sub %d closed", j)
+		case gapAt != "":
+			o.Impl("sub %d gap %s", j, gapAt)
+		case len(got) == 0 || fmt.Sprintf("b%d", got[len(got)-1]) != last:
+			o.Impl("sub %d incomplete", j)
+		default:
+			o.Impl("sub %d ok", j)
+		}
+	}
+	o.End()
+}
+
+func suiteServerConc(o *Out, r *Rng, n int, tier string) {
+	for i := 0; i < n; i++ {
+		k := 2 + r.Intn(7)
+		pre := 5 + r.Intn(20)
+		conc := 20 + r.Intn(100)
+		size := 10 + r.Intn(150)
+		burst := r.Intn(12)
+		runServerConc(o, k, pre, conc, size, burst, int64(r.Intn(1000)))
+	}
+}
